@@ -51,6 +51,13 @@ impl Program<'_> {
         self.verif.gc_freed
     }
 
+    /// Number of objects that some collection found visited by more in-heap
+    /// handles than handles exist for them (always 0 unless a `GcTrace`
+    /// implementation visits a handle twice).
+    pub fn verif_gc_overcounts(&self) -> u64 {
+        self.gc_ctx.verif_overcounts()
+    }
+
     /// Number of objects currently tracked by the collector.
     pub fn verif_num_objects(&self) -> usize {
         self.gc_ctx.num_objects()
